@@ -43,6 +43,8 @@ type Res struct {
 	NoDate         bool
 	RawBody        []byte // if non-nil, used instead of the self-describing body
 	Headers416     H      // if non-nil, a 416 answer carries these headers instead of Headers
+	AbortOnce      int    // >=0 (with AbortOnceSet): only the next full transfer aborts after that many bytes
+	AbortOnceSet   bool
 }
 
 // ReqRec is one request as the origin received it.
@@ -267,7 +269,12 @@ func (o *Origin) respond(req *http.Request, uri string, rec *ReqRec) *http.Respo
 		resp.ContentLength = int64(len(body))
 		return resp
 	}
-	return MakeResponse(status, h, body, r.Chunked, r.AbortAfter)
+	abort := r.AbortAfter
+	if r.AbortOnceSet {
+		abort = r.AbortOnce
+		r.AbortOnceSet = false
+	}
+	return MakeResponse(status, h, body, r.Chunked, abort)
 }
 
 func parseSimpleRange(s string, n int) (int, int, bool) {
